@@ -38,7 +38,13 @@
 // TODO: Other sizes? Does anyone need more than 5 slots?
 
 use std::cell::UnsafeCell;
+#[cfg(sighook_verif)]
+use std::sync::atomic::Ordering;
+#[cfg(not(sighook_verif))]
 use std::sync::atomic::{AtomicU16, Ordering};
+
+#[cfg(sighook_verif)]
+use signal_hook_registry::verif::{self, shim::AtomicU16};
 
 const SLOTS: usize = 5;
 const BITS: u16 = 3;
@@ -135,6 +141,8 @@ impl<T> Channel<T> {
     /// If the value doesn't fit, it is silently dropped. Never blocks.
     pub fn send(&self, val: T) {
         if let Some(empty_idx) = dequeue(&self.empty) {
+            #[cfg(sighook_verif)]
+            verif::event("cell_write", empty_idx as usize, self as *const _ as usize);
             unsafe { *self.storage[empty_idx as usize - 1].get() = Some(val) };
             enqueue(&self.full, empty_idx);
         }
@@ -145,12 +153,26 @@ impl<T> Channel<T> {
     /// Or returns `None` if the channel is empty. Never blocks.
     pub fn recv(&self) -> Option<T> {
         dequeue(&self.full).map(|idx| {
+            #[cfg(sighook_verif)]
+            verif::event("cell_take", idx as usize, self as *const _ as usize);
             let result = unsafe { &mut *self.storage[idx as usize - 1].get() }
                 .take()
                 .expect("Full slot with nothing in it");
             enqueue(&self.empty, idx);
             result
         })
+    }
+}
+
+#[cfg(sighook_verif)]
+impl<T> Channel<T> {
+    /// Addresses of the (empty, full) queue words.
+    #[doc(hidden)]
+    pub fn verif_layout(&self) -> [usize; 2] {
+        [
+            &self.empty as *const _ as usize,
+            &self.full as *const _ as usize,
+        ]
     }
 }
 
